@@ -23,7 +23,7 @@ class Prop(BaseProp):
             "bivariate call form. distinct = interleaving words incl. keyword regime and interval kind")
     budget = {"quick": 900, "thorough": 160000}
     must_see = ["interval_none", "interval_bp_bp", "interval_half_half", "interval_same_piece", "interval_from_start",
-                "interval_to_end", "interval_without_events", "N>=3", "bivariate_form", "RI_true", "max_tau_positive",
+                "interval_to_end", "interval_list", "interval_without_events", "N>=3", "bivariate_form", "RI_true", "max_tau_positive",
                 "mrts_positive", "mrts_auto", "order_checked", "sync_checked", "indices_selection", "indices_non_prefix"]
     arm_files = [("pyspike/PieceWiseConstFunc.py", ["integral", "avrg"]), ("pyspike/PieceWiseLinFunc.py", ["integral", "avrg"]),
                  ("pyspike/DiscreteFunc.py", ["integral", "avrg"]), ("pyspike/generic.py", None)]
@@ -40,6 +40,20 @@ class Prop(BaseProp):
             if r < 0.3:
                 case["interval"] = None
                 case["ikind"] = "none"
+            elif r < 0.42:
+                # a list of two disjoint intervals (the distance functions accept what avrg accepts)
+                a, b, kind = gen.pick_interval(rng, ts, te, bps)
+                cut = sorted({t for t in bps if a < t < b} | {(a + b) / 2})
+                m1 = rng.choice(cut)
+                m2 = rng.choice([t for t in cut if t >= m1] + [b])
+                ivs = [[a, m1], [m2, b]]
+                ivs = [iv for iv in ivs if iv[1] > iv[0]]
+                if len(ivs) == 2:
+                    case["interval"] = ivs
+                    case["ikind"] = "list"
+                else:
+                    case["interval"] = [a, b]
+                    case["ikind"] = kind
             else:
                 a, b, kind = gen.pick_interval(rng, ts, te, bps)
                 case["interval"] = [a, b]
@@ -58,12 +72,16 @@ class Prop(BaseProp):
         kwc = case["kw"]
         iv = case["interval"]
         ctx.count("interval_" + case["ikind"])
-        ivt = None if iv is None else (iv[0], iv[1])
-        a, b = (ts, te) if iv is None else iv
-        args = sts if N > 2 else None
+        is_list = iv is not None and isinstance(iv[0], (list, tuple))
+        if is_list:
+            ivs = [(float(u), float(v)) for u, v in iv]
+            ivt = list(ivs)
+        else:
+            ivs = [(ts, te)] if iv is None else [(iv[0], iv[1])]
+            ivt = None if iv is None else (iv[0], iv[1])
+        total_len = sum(ref.fr(v) - ref.fr(u) for u, v in ivs)
         if N == 2:
             ctx.count("bivariate_form")
-
         idx = case.get("idx")
         if idx is not None:
             ctx.count("indices_selection")
@@ -76,21 +94,21 @@ class Prop(BaseProp):
                 return ctx.call(fn, sts, indices=idx, **kw)
             return ctx.call(fn, sts, **kw)
         ctx.sample({"trains": tr, "edges": [ts, te], "kw": kwc, "interval": iv, "indices": case.get("idx")})
-        tol = 1e-9 * max(1.0, (te - ts) / (b - a))
+        tol = 1e-9 * max(1.0, (te - ts) / float(total_len))
         kw_isi = {"MRTS": kwc["MRTS"]}
         kw_spk = {"MRTS": kwc["MRTS"], "RI": kwc["RI"]}
         kw_syn = {"MRTS": kwc["MRTS"], "max_tau": kwc["max_tau"]}
         # ---- ISI
         p = callm(ps.isi_profile, **kw_isi)
         d = callm(ps.isi_distance, interval=ivt, **kw_isi)
-        want = ref.integ_pwc(p.x, p.y, a, b) / (ref.fr(b) - ref.fr(a))
+        want = sum(ref.integ_pwc(p.x, p.y, u, v) for u, v in ivs) / total_len
         ctx.close(d, want, "isi:distance!=avg(profile)", "isi_distance(interval=%r) vs exact average of isi_profile" % (iv,), rel=tol, absl=tol)
         pa = ctx.call(p.avrg, ivt, _name="PieceWiseConstFunc.avrg")
         ctx.close(pa, want, "isi:profile.avrg", "isi_profile.avrg(%r) vs exact average" % (iv,), rel=tol, absl=tol)
         # ---- SPIKE
         p = callm(ps.spike_profile, **kw_spk)
         d = callm(ps.spike_distance, interval=ivt, **kw_spk)
-        want = ref.integ_pwl(p.x, p.y1, p.y2, a, b) / (ref.fr(b) - ref.fr(a))
+        want = sum(ref.integ_pwl(p.x, p.y1, p.y2, u, v) for u, v in ivs) / total_len
         ctx.close(d, want, "spike:distance!=avg(profile)", "spike_distance(interval=%r) vs exact average of spike_profile" % (iv,), rel=tol, absl=tol)
         pa = ctx.call(p.avrg, ivt, _name="PieceWiseLinFunc.avrg")
         ctx.close(pa, want, "spike:profile.avrg", "spike_profile.avrg(%r) vs exact average" % (iv,), rel=tol, absl=tol)
@@ -98,7 +116,11 @@ class Prop(BaseProp):
         ctx.count("sync_checked")
         p = callm(ps.spike_sync_profile, **kw_syn)
         d = callm(ps.spike_sync, interval=ivt, **kw_syn)
-        sy, sm = ref.discrete_sums(p.x, p.y, p.mp, None if iv is None else a, b)
+        if iv is None:
+            sy, sm = ref.discrete_sums(p.x, p.y, p.mp, None, None)
+        else:
+            parts = [ref.discrete_sums(p.x, p.y, p.mp, u, v) for u, v in ivs]
+            sy, sm = sum(q[0] for q in parts), sum(q[1] for q in parts)
         if sm == 0:
             ctx.count("interval_without_events")
             ctx.expect(d == 1.0, "sync:no-event-interval", "spike_sync over an interval without events is %r, expected 1" % d)
